@@ -1053,6 +1053,59 @@ func c14ObjSuffix(c *Ctx) {
 	// parameters; deciding on one constructor (the last, the first) drops the structs of the others
 	// which fields live in the flags word: exactly the parameters of TL type `true`.  A flags.N?Bool is a bit plus
 	// a Bool word on the wire; marking it encoded_in_bitflags makes the codec drop the word
+	// where the flags word sits is declared by FlagIndex(): a struct gets the method as soon as one of its parameters
+	// is conditional - whatever bit it uses (bit 0 included)
+	r.Rule("R14.I", "generateStructTypeAndMethods emits FlagIndex() whenever a parameter is conditional: once the true edge of a test of Parameter.IsOptional was taken, the condition guarding the emission evaluates to true", 1)
+	if f := c.fn("R14.I", load.GenPkg, "*Generator", "generateStructTypeAndMethods"); f != nil {
+		// the guard: the If whose true edge dominates the block that names the method
+		var guard *ssa.If
+		for _, b := range f.Blocks {
+			for _, in := range b.Instrs {
+				ci, ok := in.(ssa.CallInstruction)
+				if !ok {
+					continue
+				}
+				for _, a := range ci.Common().Args {
+					if isConstString(a, "FlagIndex") {
+						for _, i := range an.Ifs(f) {
+							if i.Block().Succs[0].Dominates(b) && (guard == nil || guard.Block().Dominates(i.Block())) {
+								if guard == nil {
+									guard = i
+								}
+							}
+						}
+					}
+				}
+			}
+		}
+		var edges []an.Edge
+		for _, i := range an.Ifs(f) {
+			v := unNot(i.Cond)
+			if ld, ok := v.(*ssa.UnOp); ok {
+				if fa, ok := ld.X.(*ssa.FieldAddr); ok && strings.HasSuffix(an.FieldName(fa.X.Type(), fa.Field), "tlparser.Parameter.IsOptional") {
+					s := 0
+					if v != i.Cond {
+						s = 1
+					}
+					edges = append(edges, an.Edge{From: i.Block(), Succ: s})
+				}
+			}
+		}
+		switch {
+		case guard == nil:
+			r.Undecide("R14.I", "flagindex:emitted-iff-conditional", c.pos(f.Pos()), "no condition guarding the emission of FlagIndex found")
+		case len(edges) == 0:
+			r.Violate("R14.I", "flagindex:emitted-iff-conditional", c.pos(guard.Pos()), "the emission of FlagIndex() is not decided by a test of Parameter.IsOptional (a struct whose conditional fields all use bit 0 must still declare where its flags word is)")
+		default:
+			var bad []string
+			for _, e := range edges {
+				if v := boolAfter(f, e, guard.Cond, guard.Block()); v != "true" && v != "" {
+					bad = append(bad, "after a conditional parameter was seen the condition guarding the emission may be "+v)
+				}
+			}
+			r.Check(len(bad) == 0, "R14.I", "flagindex:emitted-iff-conditional", c.pos(guard.Pos()), strings.Join(bad, "; "))
+		}
+	}
 	r.Rule("R14.K", "generateStructParameter appends the encoded_in_bitflags option exactly on the equal edge of the test param.Type == \"true\" (the TL type, not the Go type it maps to)", 1)
 	if f := c.fn("R14.K", load.GenPkg, "*Generator", "generateStructParameter"); f != nil {
 		n := 0
@@ -1162,17 +1215,13 @@ func c14ObjSuffix(c *Ctx) {
 					continue
 				}
 				n++
-				reach, exec := an.ReachFromExec(g, hasFields, nil)
 				for _, b := range g.Blocks {
-					if !reach[b] {
-						continue
-					}
 					for _, in := range b.Instrs {
 						ret, ok := an.AsReturn(in)
 						if !ok || len(ret.Results) != 1 {
 							continue
 						}
-						if v := boolAlong(an.RetVal(ret, 0), exec, 0); v != "false" {
+						if v := boolAfter(g, hasFields, an.RetVal(ret, 0), b); v != "false" && v != "" {
 							bad = append(bad, "after a constructor with parameters was seen ("+c.pos(i.Cond.Pos())+") the return at "+c.pos(ret.Pos())+" may answer "+v)
 						}
 					}
@@ -1576,10 +1625,16 @@ func isConstInt(v ssa.Value, k int64) bool {
 }
 
 // boolAlong: the boolean a value may have when only the edges in exec were taken: "true", "false" or "either".
+// A loop-carried flag refers to itself through the back edge: a phi under evaluation contributes nothing new.
 func boolAlong(v ssa.Value, exec map[an.Edge]bool, depth int) string {
-	if depth > 6 {
+	r := boolAlongV(v, exec, map[*ssa.Phi]bool{})
+	if r == "" {
 		return "either"
 	}
+	return r
+}
+
+func boolAlongV(v ssa.Value, exec map[an.Edge]bool, visiting map[*ssa.Phi]bool) string {
 	switch x := v.(type) {
 	case *ssa.Const:
 		if x.Value != nil && x.Value.Kind() == constant.Bool {
@@ -1590,29 +1645,155 @@ func boolAlong(v ssa.Value, exec map[an.Edge]bool, depth int) string {
 		}
 	case *ssa.UnOp:
 		if x.Op == token.NOT {
-			switch boolAlong(x.X, exec, depth+1) {
+			switch boolAlongV(x.X, exec, visiting) {
 			case "true":
 				return "false"
 			case "false":
 				return "true"
+			case "":
+				return ""
 			}
 		}
 	case *ssa.Phi:
+		if visiting[x] {
+			return "" // nothing new
+		}
+		visiting[x] = true
+		defer delete(visiting, x)
 		res := ""
 		for _, e := range an.PhiValues(x, exec) {
-			if e == ssa.Value(x) {
+			b := boolAlongV(e, exec, visiting)
+			if b == "" {
 				continue
 			}
-			b := boolAlong(e, exec, depth+1)
 			if res == "" {
 				res = b
 			} else if res != b {
 				return "either"
 			}
 		}
-		if res != "" {
-			return res
-		}
+		return res
 	}
 	return "either"
+}
+
+// boolAfter: the boolean value v may have at the end of block `at` on the paths that begin with the edge start - a
+// forward propagation over the CFG in the lattice {true, false, either}: every phi holds "either" (whatever it
+// held before the edge was taken) until an edge taken after start gives it a value; values meeting at a block are
+// joined.  Branches are not pruned.  Returns "" when `at` is not reachable from the edge.
+func boolAfter(fn *ssa.Function, start an.Edge, v ssa.Value, at *ssa.BasicBlock) string {
+	type state map[*ssa.Phi]string
+	eval := func(x ssa.Value, st state) string {
+		neg := false
+		for {
+			u, ok := x.(*ssa.UnOp)
+			if !ok || u.Op != token.NOT {
+				break
+			}
+			neg = !neg
+			x = u.X
+		}
+		res := "either"
+		switch y := x.(type) {
+		case *ssa.Const:
+			if y.Value != nil && y.Value.Kind() == constant.Bool {
+				if constant.BoolVal(y.Value) {
+					res = "true"
+				} else {
+					res = "false"
+				}
+			}
+		case *ssa.Phi:
+			if val, ok := st[y]; ok {
+				res = val
+			}
+		}
+		if neg {
+			switch res {
+			case "true":
+				res = "false"
+			case "false":
+				res = "true"
+			}
+		}
+		return res
+	}
+	in := map[*ssa.BasicBlock]state{}
+	transfer := func(e an.Edge, st state) state {
+		to := e.To()
+		// which predecessor slot of `to` is this edge?
+		slot := -1
+		k := 0
+		for si, s2 := range e.From.Succs {
+			if s2 == to {
+				if si == e.Succ {
+					break
+				}
+				k++
+			}
+		}
+		for pi, p := range to.Preds {
+			if p == e.From {
+				if k == 0 {
+					slot = pi
+					break
+				}
+				k--
+			}
+		}
+		out := state{}
+		for ph, val := range st {
+			out[ph] = val
+		}
+		for _, instr := range to.Instrs {
+			ph, ok := instr.(*ssa.Phi)
+			if !ok {
+				break
+			}
+			if slot >= 0 && slot < len(ph.Edges) {
+				out[ph] = eval(ph.Edges[slot], st)
+			} else {
+				out[ph] = "either"
+			}
+		}
+		return out
+	}
+	join := func(a, b state) (state, bool) {
+		changed := false
+		for ph, vb := range b {
+			va, ok := a[ph]
+			switch {
+			case !ok:
+				a[ph] = vb
+				changed = true
+			case va != vb && va != "either":
+				a[ph] = "either"
+				changed = true
+			}
+		}
+		return a, changed
+	}
+	first := transfer(start, state{})
+	in[start.To()] = first
+	work := []*ssa.BasicBlock{start.To()}
+	for len(work) > 0 {
+		b := work[0]
+		work = work[1:]
+		for si := range b.Succs {
+			e := an.Edge{From: b, Succ: si}
+			nst := transfer(e, in[b])
+			if cur, ok := in[e.To()]; !ok {
+				in[e.To()] = nst
+				work = append(work, e.To())
+			} else if merged, changed := join(cur, nst); changed {
+				in[e.To()] = merged
+				work = append(work, e.To())
+			}
+		}
+	}
+	st, ok := in[at]
+	if !ok {
+		return ""
+	}
+	return eval(v, st)
 }
